@@ -8,7 +8,7 @@ from __future__ import annotations
 
 import logging
 from functools import total_ordering
-from ipaddress import IPv4Network
+from ipaddress import IPv4Network, NetmaskValueError
 from typing import Any, Dict, List, Union
 
 from cisco_acl import parsers, helpers as h
@@ -221,6 +221,8 @@ class AddrGroup(Base, Group):
             idx, item = h.findall2(regex, item)
             try:
                 address = AddressAg(line=item, platform=self._platform, max_ncwb=self.max_ncwb)
+            except NetmaskValueError:  # wildcard exceeds max_ncwb, the same as AceGroup
+                raise
             except ValueError:
                 msg = f"invalid {item=}"
                 logging.debug(msg)
